@@ -21,6 +21,7 @@ Print Assumptions C20_restore.
     the restored view is the source's view after the prefix [h1]. *)
 Theorem C20_restore_explicit : forall v m0 sid h1 h2,
   v_reopen v = MAppend ->
+  forallb (fun o => negb (is_env o)) h1 = true ->
   forallb (fun o => negb (is_backup o)) h2 = true ->
   let st1 := run v h1 (init v m0 sid []) in
   let st := run v (h1 ++ OBackup :: h2) (init v m0 sid []) in
@@ -29,13 +30,32 @@ Theorem C20_restore_explicit : forall v m0 sid h1 h2,
 Proof. exact restore_append_explicit. Qed.
 Print Assumptions C20_restore_explicit.
 
-(** A location whose DATAHUB_BACKUPID differs from the store's is never written - no file of it
-    changes, under every variant, for every history and from any state. *)
+(** A location whose DATAHUB_BACKUPID differs (as a byte string) from the store's is never written:
+    no hub step - write, backup run, restart - changes any file of it or is a returned run; under
+    every variant, from any state. *)
+Theorem C20_foreign_step : forall v st o, is_env o = false ->
+  (exists b, fs_get (s_fs st) FStorageId = Some (DBytes b) /\ b <> s_store_id st) ->
+  s_fs (fst (step v st o)) = s_fs st /\ s_store_id (fst (step v st o)) = s_store_id st
+  /\ s_snap (fst (step v st o)) = s_snap st /\ snd (step v st o) <> R_RETURNED.
+Proof. exact foreign_step. Qed.
+Print Assumptions C20_foreign_step.
+
+(** ... hence for every history of hub steps from such a state. *)
 Theorem C20_foreign : forall v ops st,
-  (exists b, fs_get (s_fs st) FStorageId = Some (DNum b) /\ b <> s_store_id st) ->
+  forallb (fun o => negb (is_env o)) ops = true ->
+  (exists b, fs_get (s_fs st) FStorageId = Some (DBytes b) /\ b <> s_store_id st) ->
   s_fs (run v ops st) = s_fs st /\ s_snap (run v ops st) = s_snap st.
 Proof. exact foreign_never_written. Qed.
 Print Assumptions C20_foreign.
+
+(** ... and for every history in which the ENVIRONMENT replaces, empties or removes the location's id
+    file at arbitrary points (between runs of one process, across restarts), with arbitrary byte
+    strings as ids: every hub step that starts while the location's id differs from the store's leaves
+    the location untouched and is not a returned run ([foreign_ok] walks the per-step trace). *)
+Theorem C20_foreign_any_history : forall v ops st,
+  foreign_ok (s_store_id st) (loc_id (s_fs st)) ops (fst (trace v ops st)) = true.
+Proof. exact trace_foreign_ok. Qed.
+Print Assumptions C20_foreign_any_history.
 
 (** With the cursor written and read under the same name a restart leaves the cursor unchanged. *)
 Theorem C20_cursor_survives_restart : forall v m0 sid ops m, v_name v = NameSame ->
@@ -50,7 +70,7 @@ Print Assumptions C20_cursor_survives_restart.
     source at the last returned run differs from its view at the first. *)
 Theorem C20_readonly_keeps_first : forall v m0 sid h1 h2,
   v_reopen v = MRead ->
-  forallb (fun o => negb (is_backup o)) h1 = true ->
+  forallb (fun o => negb (is_backup o) && negb (is_env o)) h1 = true ->
   let st1 := run v h1 (init v m0 sid []) in
   let st := run v (h1 ++ OBackup :: h2) (init v m0 sid []) in
   fs_get (s_fs st) FKv = Some (DEntries (s_src st1)).
@@ -61,7 +81,7 @@ Print Assumptions C20_readonly_keeps_first.
     the first run and the last run that returned *)
 Theorem C20_readonly_restore_iff : forall v m0 sid h1 h2,
   v_reopen v = MRead ->
-  forallb (fun o => negb (is_backup o)) h1 = true ->
+  forallb (fun o => negb (is_backup o) && negb (is_env o)) h1 = true ->
   let st1 := run v h1 (init v m0 sid []) in
   let st := run v (h1 ++ OBackup :: h2) (init v m0 sid []) in
   restore_ok st <->
@@ -71,13 +91,13 @@ Print Assumptions C20_readonly_restore_iff.
 
 (** refutations for the pinned tree *)
 (** F20a: write, backup, write, backup - the restored hub misses the second entity *)
-Theorem C20_refuted_readonly_reopen : exists ops, ~ restore_ok (run current ops (init current 10 1 [])).
+Theorem C20_refuted_readonly_reopen : exists ops, ~ restore_ok (run current ops (init current 10 [49] [])).
 Proof. exists wit_a. exact refuted_readonly_reopen. Qed.
 Print Assumptions C20_refuted_readonly_reopen.
 
 (** ... the second run wrote nothing and left the cursor 0 in memory and on disk *)
 Theorem C20_refuted_second_run_silent :
-  let st := run current wit_a (init current 10 1 []) in
+  let st := run current wit_a (init current 10 [49] []) in
   kvfile (s_fs st) = [{| e_ver := 10; e_ds := sys_ds; e_id := 0; e_val := 10; e_del := false |};
                       {| e_ver := 24; e_ds := 0; e_id := 1; e_val := 3; e_del := false |}]
   /\ s_cursor st = 0 /\ seen_file (s_fs st) = Some 0.
@@ -87,15 +107,15 @@ Print Assumptions C20_refuted_second_run_silent.
 (** F20b: the cursor is on disk (24) but a restart loads 0 - in the pinned tree and also when only
     the open mode is repaired.  (By C20_restore this costs a full re-dump, not correctness.) *)
 Theorem C20_refuted_cursor_filename :
-  (let st := run current wit_b (init current 10 1 []) in seen_file (s_fs st) = Some 24 /\ s_cursor st = 0)
-  /\ (let st := run append_only wit_b (init append_only 10 1 []) in seen_file (s_fs st) = Some 24 /\ s_cursor st = 0).
+  (let st := run current wit_b (init current 10 [49] []) in seen_file (s_fs st) = Some 24 /\ s_cursor st = 0)
+  /\ (let st := run append_only wit_b (init append_only 10 [49] []) in seen_file (s_fs st) = Some 24 /\ s_cursor st = 0).
 Proof. split; [exact refuted_cursor_filename | exact refuted_cursor_filename_append_only]. Qed.
 Print Assumptions C20_refuted_cursor_filename.
 
 (** repairing only the file name does not help; always truncating (os.Create) is wrong too *)
 Theorem C20_refuted_other_repairs :
-  ~ restore_ok (run name_only wit_a (init name_only 10 1 []))
-  /\ ~ restore_ok (run truncating wit_a (init truncating 10 1 [])).
+  ~ restore_ok (run name_only wit_a (init name_only 10 [49] []))
+  /\ ~ restore_ok (run truncating wit_a (init truncating 10 [49] [])).
 Proof. split; [exact refuted_readonly_reopen_name_only | exact refuted_truncate]. Qed.
 Print Assumptions C20_refuted_other_repairs.
 
@@ -111,20 +131,28 @@ Definition demo : list op :=
   [OWrite 24 0 1 3 false; OBackup; OWrite 31 0 1 5 false; ORestart 33; OWrite 40 0 1 3 true; OBackup;
    OWrite 52 1 0 0 false; OBackup; ORestart 54; OBackup].
 Example C20_nonvacuous_1 :
-  let st := run fixed demo (init fixed 10 1 []) in
+  let st := run fixed demo (init fixed 10 [49] []) in
   option_map listing (s_snap st) = Some [(0, 1, 3, true); (1, 0, 0, false)]
   /\ listing (kvfile (s_fs st)) = [(0, 1, 3, true); (1, 0, 0, false)]
   /\ s_cursor st = 54 /\ length (kvfile (s_fs st)) = 7%nat.
 Proof. vm_compute. repeat split; reflexivity. Qed.
 Example C20_nonvacuous_2 :
-  let st := run current demo (init current 10 1 []) in
+  let st := run current demo (init current 10 [49] []) in
   option_map listing (s_snap st) = Some [(0, 1, 3, true); (1, 0, 0, false)]
   /\ listing (kvfile (s_fs st)) = [(0, 1, 3, false)] /\ s_cursor st = 0.
 Proof. vm_compute. repeat split; reflexivity. Qed.
-(** the foreign hypothesis is satisfiable and a run is really attempted (and refused) *)
+(** the foreign hypothesis is satisfiable, a run is really attempted (and refused), and an id that
+    differs only by a trailing newline, or an emptied id file, is foreign while a removed one is re-claimed *)
 Example C20_nonvacuous_3 :
-  let st0 := init current 10 store_id foreign_fs in
+  let st0 := init current 10 [104; 117; 98] (foreign_fs [104; 117; 98; 10]) in
   snd (step current st0 OBackup) = R_REFUSED
   /\ snd (step current (fst (step current st0 OBackup)) OBackup) = R_SKIPPED
-  /\ s_fs (run current [OBackup; ORestart 12; OBackup] st0) = foreign_fs.
+  /\ s_fs (run current [OBackup; ORestart 12; OBackup] st0) = foreign_fs [104; 117; 98; 10].
 Proof. vm_compute. repeat split; reflexivity. Qed.
+Example C20_nonvacuous_4 :
+  let sid := [104; 117; 98; 45; 97] in
+  map x_res (fst (trace current [OWrite 24 0 1 3 false; OBackup; OSetLocId [104; 117; 98; 45; 98]; OBackup;
+                                 ORestart 26; OBackup; OSetLocId []; ORestart 28; OBackup; ODelLocId; OBackup; ORestart 30; OBackup]
+                         (init current 10 sid [])))
+  = [0; 1; 0; 2; 0; 2; 0; 0; 2; 0; 4; 0; 1].   (* 4: isRunning is still set after the refusal *)
+Proof. vm_compute. reflexivity. Qed.
